@@ -367,7 +367,7 @@ EXTRA_PATTERNS = [
 
 def regex_correspondence(ctx, facts):
     rng = ctx.subrng("regex")
-    per = ctx.budget(600, 2500)
+    per = ctx.budget(600, 8000)
     pats = []
     for n, lv in facts.items():
         for kind, p, fl in lv:
@@ -763,7 +763,7 @@ NEAR = {
 def builtin_oracle(ctx, pp, facts, boost=1):
     rng = ctx.subrng("builtin-oracle")
     table = _builtin_table()
-    per = ctx.budget(1000, 4000) * boost
+    per = ctx.budget(1000, 12000) * boost
     n = 0
     outcomes = {}
     samples = []
@@ -874,7 +874,7 @@ def ipv6_oracle(ctx, pp):
                            signature="ipv6_embedded_ipv4_forms")
     n = 0
     outcomes = {}
-    for s in fixed + [gen_ipv6(rng) for _ in range(ctx.budget(5000, 20000))]:
+    for s in fixed + [gen_ipv6(rng) for _ in range(ctx.budget(5000, 80000))]:
         if embedded_v4_other_than_ffff(s) or "%" in s:
             continue  # region of the registered finding / zone ids (not part of the documented syntax)
         n += 1
@@ -996,7 +996,7 @@ def quoted_oracle(ctx, pp):
         if d not in (None, "skip"):
             ctx.fail_input("QuotedString does not convert \\xHH / \\uHHHH / \\OOO escapes", w, d[0], d[1],
                            signature="quoted_numeric_escapes")
-    cfgs = qs_configs(rng, ctx.budget(1200, 4000))
+    cfgs = qs_configs(rng, ctx.budget(1200, 12000))
     for cfg in cfgs:
         E = cfg["end_quote_char"] or cfg["quote_char"]
         alpha = list("ab c\\\\tn0x41u\t\n\r'\"") + [E, E[0], cfg["quote_char"], cfg["esc_char"] or "z",
@@ -1084,7 +1084,7 @@ def quoted_builtins_oracle(ctx, pp):
     n = 0
     outcomes = {}
     alpha = ['"', "'", "\\", "a", "b", " ", "x", "4", "1", "\n", '""', "''", '\\"', "\\'", "\\x41", "\\x", "\\\\", "\\n"]
-    for _ in range(ctx.budget(10000, 40000)):
+    for _ in range(ctx.budget(10000, 150000)):
         kind = rng.choice(["dbl", "sgl", "any"])
         q = rng.choice({"dbl": ['"'], "sgl": ["'"], "any": ['"', "'"]}[kind])
         body = "".join(rng.choice(alpha) for _ in range(rng.randint(0, 6)))
@@ -1189,7 +1189,7 @@ def nested_oracle(ctx, pp):
     n = 0
     outcomes = {}
     pairs = [("(", ")"), ("[", "]"), ("{", "}"), ("<<", ">>"), ("{{", "}}"), ("begin", "end")]
-    for _ in range(ctx.budget(5000, 20000)):
+    for _ in range(ctx.budget(5000, 60000)):
         op, cl = rng.choice(pairs)
         t = gen_tree(rng, 3)
         s = render_tree(rng, t, op, cl)
@@ -1245,7 +1245,7 @@ def delimited_oracle(ctx, pp):
         if d not in (None, "skip"):
             ctx.fail_input("DelimitedList(max=1, allow_trailing_delim=True) matches nothing", {"delimited": w}, d[0], d[1],
                            signature="delimited_max1_trailing")
-    for _ in range(ctx.budget(8000, 30000)):
+    for _ in range(ctx.budget(8000, 100000)):
         delim = rng.choice([",", ";", "::", "|"])
         mn = rng.choice([None, None, 1, 2, 3])
         mx = rng.choice([None, None, 1, 2, 3, 4])
@@ -1311,7 +1311,7 @@ def counted_oracle(ctx, pp):
     rng = ctx.subrng("counted")
     n = 0
     outcomes = {}
-    for _ in range(ctx.budget(5000, 20000)):
+    for _ in range(ctx.budget(5000, 60000)):
         use = rng.random() < 0.3
         k = rng.randint(0, 5)
         real_k = k if rng.random() < 0.6 else max(0, k + rng.choice([-1, 1, 2]))
